@@ -311,3 +311,133 @@ def flux_clause(vals, kind, flux, clause, comp=None, normal=None):
             return _orig_flux_clause(vv, kind, flux, "mirror", comp, normal)
         v = np.nextafter(v, np.inf)
     return _orig_flux_clause(vals, kind, flux, "mirror", comp, normal)
+
+
+# --------------------------------------------------------------------------------------
+# C17
+
+def prim_to_cons(kind, W, vals):
+    if kind in ("convection", "burgers"):
+        return [W[0]]
+    if kind == "shallowwater":
+        return [W[0], W[0] * W[1]]
+    g = num(vals.get("gamma"), 1.4)
+    if kind == "euler2d":
+        r, ux, uy, p = W
+        return [r, (r * ux, r * uy), p / (g - 1) + 0.5 * r * (ux * ux + uy * uy)]
+    r, u, p = W
+    return [r, r * u, p / (g - 1) + 0.5 * r * u * u]
+
+
+def cons_arrays(kind, Q, ncell=3):
+    out = []
+    for q in Q:
+        if isinstance(q, tuple):
+            out.append(np.array([[q[0]] * ncell, [q[1]] * ncell], dtype=float))
+        else:
+            out.append(np.array([q] * ncell, dtype=float))
+    return out
+
+
+def var_definitions(kind, W, vals, A=1.0):
+    if kind == "convection":
+        return {"q": W[0]}
+    if kind == "shallowwater":
+        return {"height": W[0], "massflow": W[0] * W[1], "velocity": W[1]}
+    if kind == "burgers":
+        return {}
+    g = num(vals.get("gamma"), 1.4)
+    d = {}
+    if kind == "euler2d":
+        r, ux, uy, p = W
+        v2 = ux * ux + uy * uy
+        d["velocity"] = (ux, uy)
+        d["velocity_x"], d["velocity_y"] = ux, uy
+    else:
+        r, u, p = W
+        v2 = u * u
+        d["velocity"] = u
+        d["massflow"] = r * u * A
+    a = math.sqrt(g * p / r)
+    d.update({"density": r, "pressure": p, "velocitymag": math.sqrt(v2), "kinetic_energy": r * v2 / 2,
+              "kinetic-energy": r * v2 / 2, "asound": a, "mach": math.sqrt(v2) / a,
+              "enthalpy": g / (g - 1) * p / r, "htot": g / (g - 1) * p / r + v2 / 2,
+              "rttot": (g - 1) / g * (g / (g - 1) * p / r + v2 / 2),
+              "ptot": p * (1 + (g - 1) / 2 * v2 / (a * a)) ** (g / (g - 1)),
+              "entropy": math.log(p / r ** g) / (g - 1)})
+    return d
+
+
+def state_clause(vals, kind, clause, comp=None, name=None):
+    W = [num(vals.get("W%d" % k), DEFAULT_STATE[kind][k]) for k in range(NCOMP[kind])]
+    if kind == "shallowwater" and W[0] <= 0:
+        return True
+    if kind in ("euler1d", "nozzle") and (W[0] <= 0 or W[2] <= 0):
+        return True
+    if kind == "euler2d" and (W[0] <= 0 or W[3] <= 0):
+        return True
+    ncell = 3
+    Aval = 1.7
+    model = build_model(kind, vals, sectionlaw=(lambda x: Aval + 0 * x))
+    if kind == "nozzle":
+        import flowdyn.mesh as mesh
+        model.initdisc(mesh.unimesh(ncell=ncell, length=1.0))
+    Q = cons_arrays(kind, prim_to_cons(kind, W, vals), ncell)
+    if clause == "variable":
+        try:
+            r = model.nameddata(name, Q)
+        except Exception as e:
+            print("  nameddata raised %r" % (e,))
+            return False
+        r = np.asarray(r, dtype=float)
+        ref = var_definitions(kind, W, vals, A=Aval).get(name)
+        show(kind=kind, name=name, W=W, shape=r.shape, value=r.reshape(-1)[:4].tolist(), definition=ref)
+        if ref is None:
+            return True
+        if isinstance(ref, tuple):
+            return r.shape == (len(ref), ncell) and all(close(r[k], [ref[k]] * ncell) for k in range(len(ref)))
+        return r.shape == (ncell,) and close(r, [ref] * ncell)
+    P = [np.array(q) for q in to_pdata_n(kind, W, ncell)]
+    if clause in ("roundtrip-prim", "prim2cons"):
+        Qr = model.prim2cons(P)
+        if clause == "prim2cons":
+            return all(close(a, b) for a, b in zip(Qr, Q))
+        P2 = model.cons2prim(Qr)
+        show(kind=kind, W=W, back=[np.asarray(p).reshape(-1)[:2].tolist() for p in P2])
+        return all(close(a, b) for a, b in zip(P2, P))
+    if clause == "roundtrip-cons":
+        Q2 = model.prim2cons(model.cons2prim(Q))
+        return all(close(a, b) for a, b in zip(Q2, Q))
+    raise ValueError(clause)
+
+
+def to_pdata_n(kind, W, n):
+    if kind == "euler2d":
+        return [np.array([W[0]] * n), np.array([[W[1]] * n, [W[2]] * n]), np.array([W[3]] * n)]
+    return [np.array([w] * n, dtype=float) for w in W]
+
+
+# --------------------------------------------------------------------------------------
+# C18
+
+def timestep_clause(vals, kind):
+    W = [num(vals.get("W%d" % k), DEFAULT_STATE[kind][k]) for k in range(NCOMP[kind])]
+    cfl, dx = num(vals.get("cfl"), 0.5), num(vals.get("dx"), 0.1)
+    model = build_model(kind, vals)
+    n = 3
+    Q = cons_arrays(kind, prim_to_cons(kind, W, vals), n)
+    size = dx if kind == "euler2d" else np.array([dx, 2 * dx, 0.5 * dx])
+    dt = np.asarray(model.timestep(Q, size, cfl), dtype=float)
+    if kind == "convection":
+        rho = abs(num(vals.get("a"), 1.5))
+    elif kind == "burgers":
+        rho = abs(W[0])
+    elif kind == "shallowwater":
+        rho = abs(W[1]) + math.sqrt(num(vals.get("g"), 9.81) * W[0])
+    elif kind == "euler2d":
+        rho = math.hypot(W[1], W[2]) + math.sqrt(num(vals.get("gamma"), 1.4) * W[3] / W[0])
+    else:
+        rho = abs(W[1]) + math.sqrt(num(vals.get("gamma"), 1.4) * W[2] / W[0])
+    ref = cfl * (np.array([dx] * n) if kind == "euler2d" else size) / rho
+    show(kind=kind, W=W, cfl=cfl, dt=dt.tolist(), expected=ref.tolist())
+    return dt.shape == (n,) and close(dt, ref) and bool(np.all(dt > 0))
